@@ -120,6 +120,13 @@ Fixpoint active_has_byte (total : nat) (evs : list event) : bool :=
   end.
 
 (* ================= C17: hijacking ================= *)
+(* the request that starts at the beginning of S is framed by the reader as k bytes: a prefix of S is
+   accepted as a head (summary q, hn bytes) and a prefix of what follows as its body (bn bytes) *)
+Definition is_prefix (p S : bytes) : Prop := exists x, S = p ++ x.
+Definition framed (F : framer) (S : bytes) (q : req_sum) (k : nat) : Prop :=
+  exists p1 hn p2 bn, is_prefix p1 S /\ fhead F p1 = FhOk q hn /\
+                      is_prefix p2 (skipn hn S) /\ fbody F q p2 = FbOk bn /\ k = (hn + bn)%nat.
+
 (* is there written-but-unflushed response data after these events (starting from d)? *)
 Fixpoint unflushed_from (d : bool) (evs : list event) : bool :=
   match evs with
